@@ -1,8 +1,10 @@
 /-
 Spec for the program-level stream of C04: a small DEFINITIONAL interpreter for exactly the program
 shape the generator of `vlib/props/c04.py` emits (small integers, strings, error values; functions,
-methods of one class, `while`/`for` loops, `try`/`catch`/`raise`, callbacks run by the native
-`iter().each`).  It is written from the language's meaning, NOT from the handler mechanism:
+methods of one class, `while`/`for` loops, `try`/`catch`/`raise`, and callbacks run by native code:
+`iter().each`, lazy `map`/`filter` stages consumed by `each`, a `for` loop, `.list()`, `List.collect`,
+`Tuple.collect`, `reduce`, `all`, `any`, `zip(..).list()`, and `List.sort` comparators).  It is
+written from the language's meaning, NOT from the handler mechanism:
 
 * an error is an OUTCOME of evaluating a statement; it abandons evaluation up to the nearest
   dynamically enclosing `try` one of whose clauses matches (first clause whose filter class is a
@@ -11,7 +13,11 @@ methods of one class, `while`/`for` loops, `try`/`catch`/`raise`, callbacks run 
 * variables live in an environment; abandoning evaluation does not touch it, so every variable in
   scope at the `try` has the value it had when the error was raised;
 * leaving a `try` block by completing it, `break`, `continue` or `return` is just another outcome
-  passing through it: afterwards the block's clauses play no role.
+  passing through it: afterwards the block's clauses play no role;
+* a callback is a closure called by the construct that owns it: an error raised inside it is an
+  outcome of the CALLING statement (the pipeline / sort statement), exactly as for a function call —
+  native code between the two is invisible: it neither catches nor alters the error, and the values
+  computed so far by the pipeline are simply abandoned.
 
 As a self-check the interpreter also carries the dynamic handler stack as an explicit list
 (`hs`, innermost first) and computes at every raise which entry of the list must catch the error
@@ -26,6 +32,7 @@ inductive Val where
   | int (n : Int)
   | str (s : String)
   | nil
+  | bool (b : Bool)
   | err (cls : String) (msg : String)
   deriving Repr, Inhabited, BEq
 
@@ -42,6 +49,20 @@ inductive Expr where
   | msg (x : String)        -- `x.message`
   | clsname (x : String)    -- `x.cls().name()`
   | selfv                   -- `@v` inside a method
+  | cat (a b : Expr)        -- the interpolation `"${a}${b};"`
+  deriving Repr, Inhabited
+
+/-- what consumes a lazy pipeline `[vals].iter().stage1(..).stage2(..)` -/
+inductive Sink where
+  | each (y : String)                            -- `PIPE.each(|y| { body });`
+  | forin (y : String)                           -- `for y in PIPE { body }`
+  | list                                         -- `print(PIPE.list());`
+  | collectList                                  -- `print(List.collect(PIPE));`
+  | collectTuple                                 -- `print(Tuple.collect(PIPE));`
+  | reduce (v : String) (init : Expr) (acc y : String)   -- `let v = PIPE.reduce(init, |acc, y| { body });`
+  | all (y : String)                             -- `print(PIPE.all(|y| { body }));`
+  | any (y : String)                             -- `print(PIPE.any(|y| { body }));`
+  | zip (vals : List Int)                        -- `print(PIPE.zip([vals].iter()).list());`
   deriving Repr, Inhabited
 
 inductive Stmt where
@@ -59,6 +80,14 @@ inductive Stmt where
   | ret (e : Expr)
   | expr (e : Expr)
   | each (x : String) (vals : List Int) (body : List Stmt) -- `[vals].iter().each(|x| { body });`
+  /-- a lazy pipeline over `[vals].iter()`: stages `(isFilter, x, body)` are `.filter(|x| { body })` /
+  `.map(|x| { body })` in order; `body` is the callback (or loop body) of the sink -/
+  | pipe (vals : List Int) (stages : List (Bool × String × List Stmt)) (sink : Sink) (body : List Stmt)
+  /-- `print([vals].sort(|ca, cb| { if ca == k || cb == k { body } return ca - cb; }));` where `body`
+  has no effect other than possibly raising -/
+  | sort (vals : List Int) (k : Int) (body : List Stmt)
+  /-- `exit(n);` ends the program with code `n`; it is not an error: no handler sees it -/
+  | exit (code : Nat)
   deriving Repr, Inhabited
 
 structure Fun where
@@ -131,12 +160,14 @@ inductive Outcome where
   | cont
   | ret (v : Val)
   | err (cls msg : String) (catcher : Option Nat)
+  | exit (code : Nat)
   | stuck (why : String)
   deriving Repr, Inhabited
 
 inductive ERes where
   | ok (v : Val)
   | err (cls msg : String) (catcher : Option Nat)
+  | exit (code : Nat)
   | stuck (why : String)
   deriving Repr, Inhabited
 
@@ -168,10 +199,47 @@ def showVal : Val → String
   | .int n => toString n
   | .str s => s
   | .nil => "nil"
+  | .bool b => if b then "true" else "false"
   | .err c _ => s!"<{c}>"
+
+/-- `is_falsey`: `nil` and `false` -/
+def falsey : Val → Bool
+  | .nil => true
+  | .bool false => true
+  | _ => false
+
+def showList (l : List String) : String := "[" ++ ", ".intercalate l ++ "]"
+def showTuple (l : List String) : String := "(" ++ ", ".intercalate l ++ ")"
+
+def pushOut (st : St) (line : String) : St := { st with out := st.out.push line }
+
+/-- result of pulling one source element through the lazy stages -/
+inductive SRes where
+  | pass (v : Val)
+  | dropped
+  | err (cls msg : String) (catcher : Option Nat)
+  | exit (code : Nat)
+  | stuck (why : String)
+  deriving Repr, Inhabited
 
 /-- leave a block: forget the bindings made inside it, keep the updates to outer ones -/
 def leave (env : Env) (outerLen : Nat) : Env := env.drop (env.length - outerLen)
+
+/-- the source is exhausted (or `zip`'s partner is): what the sink leaves behind -/
+def pipeDone (sink : Sink) (st : St) (env : Env) (acc : List String) (racc : Val) : Outcome × St × Env :=
+  match sink with
+  | .each _ => (.normal, st, env)
+  | .forin _ => (.normal, st, env)
+  | .list => (.normal, pushOut st (showList acc), env)
+  | .collectList => (.normal, pushOut st (showList acc), env)
+  | .zip _ => (.normal, pushOut st (showList acc), env)
+  | .collectTuple => (.normal, pushOut st (showTuple acc), env)
+  | .reduce v _ _ _ => (.normal, st, (v, racc) :: env)
+  | .all _ => (.normal, pushOut st "true", env)
+  | .any _ => (.normal, pushOut st "false", env)
+
+def sortedText (vals : List Int) : String :=
+  showList ((vals.mergeSort fun a b => decide (a ≤ b)).map toString)
 
 mutual
 /-- expressions (calls may print, assign globals and raise) -/
@@ -200,7 +268,9 @@ def evalE (p : Prog) (fuel : Nat) (self : Bool) (hs : List HEntry) (st : St) (en
       match evalE p fuel self hs st env a with
       | (.ok (.int x), st) =>
         match evalE p fuel self hs st env b with
-        | (.ok (.int y), st) => (.ok (.int (x + y)), st)
+        | (.ok (.int y), st) =>
+          -- numbers are f64 in the implementation: sums beyond 2^53 are outside what this Spec describes
+          if (x + y).natAbs < 9007199254740992 then (.ok (.int (x + y)), st) else (.stuck "range", st)
         | (.ok _, st) => (.stuck "add: not an int", st)
         | r => r
       | (.ok _, st) => (.stuck "add: not an int", st)
@@ -212,7 +282,7 @@ def evalE (p : Prog) (fuel : Nat) (self : Bool) (hs : List HEntry) (st : St) (en
       match evalE p fuel self hs st env a with
       | (.ok (.int x), st) =>
         match evalE p fuel self hs st env b with
-        | (.ok (.int y), st) => (.ok (.int (if x < y then 1 else 0)), st)
+        | (.ok (.int y), st) => (.ok (.bool (decide (x < y))), st)
         | (.ok _, st) => (.stuck "lt: not an int", st)
         | r => r
       | (.ok _, st) => (.stuck "lt: not an int", st)
@@ -224,10 +294,20 @@ def evalE (p : Prog) (fuel : Nat) (self : Bool) (hs : List HEntry) (st : St) (en
       match evalE p fuel self hs st env a with
       | (.ok (.int x), st) =>
         match evalE p fuel self hs st env b with
-        | (.ok (.int y), st) => (.ok (.int (if x == y then 1 else 0)), st)
+        | (.ok (.int y), st) => (.ok (.bool (x == y)), st)
         | (.ok _, st) => (.stuck "eq: not an int", st)
         | r => r
       | (.ok _, st) => (.stuck "eq: not an int", st)
+      | r => r
+  | .cat a b =>
+    match fuel with
+    | 0 => (.stuck "fuel", st)
+    | fuel + 1 =>
+      match evalE p fuel self hs st env a with
+      | (.ok x, st) =>
+        match evalE p fuel self hs st env b with
+        | (.ok y, st) => (.ok (.str (showVal x ++ showVal y ++ ";")), st)
+        | r => r
       | r => r
   | .call f args =>
     match fuel with
@@ -261,6 +341,7 @@ def callFun (p : Prog) (fuel : Nat) (self isMethod : Bool) (hs : List HEntry) (s
       | (.ret v, st, _) => (.ok v, st)
       | (.err c m k, st, _) => (.err c m k, st)
       | (.stuck w, st, _) => (.stuck w, st)
+      | (.exit n, st, _) => (.exit n, st)
       | (_, st, _) => (.stuck "break/continue left a function", st)
 
 def evalArgs (p : Prog) (fuel : Nat) (self : Bool) (hs : List HEntry) (st : St) (env : Env) :
@@ -308,6 +389,7 @@ def execStmt (p : Prog) (fuel : Nat) (self : Bool) (hs : List HEntry) (st : St) 
       | (.ok v, st) => (.normal, st, (x, v) :: env)
       | (.err c m k, st) => (.err c m k, st, env)
       | (.stuck w, st) => (.stuck w, st, env)
+      | (.exit n, st) => (.exit n, st, env)
   | .set x e =>
     match fuel with
     | 0 => (.stuck "fuel", st, env)
@@ -319,6 +401,7 @@ def execStmt (p : Prog) (fuel : Nat) (self : Bool) (hs : List HEntry) (st : St) 
         | none => (.stuck s!"assign to unbound {x}", st, env)
       | (.err c m k, st) => (.err c m k, st, env)
       | (.stuck w, st) => (.stuck w, st, env)
+      | (.exit n, st) => (.exit n, st, env)
   | .print e =>
     match fuel with
     | 0 => (.stuck "fuel", st, env)
@@ -327,6 +410,7 @@ def execStmt (p : Prog) (fuel : Nat) (self : Bool) (hs : List HEntry) (st : St) 
       | (.ok v, st) => (.normal, { st with out := st.out.push (showVal v) }, env)
       | (.err c m k, st) => (.err c m k, st, env)
       | (.stuck w, st) => (.stuck w, st, env)
+      | (.exit n, st) => (.exit n, st, env)
   | .expr e =>
     match fuel with
     | 0 => (.stuck "fuel", st, env)
@@ -335,6 +419,7 @@ def execStmt (p : Prog) (fuel : Nat) (self : Bool) (hs : List HEntry) (st : St) 
       | (.ok _, st) => (.normal, st, env)
       | (.err c m k, st) => (.err c m k, st, env)
       | (.stuck w, st) => (.stuck w, st, env)
+      | (.exit n, st) => (.exit n, st, env)
   | .raise c m =>
     -- only instances of subclasses of Error can be raised
     if sub p c "Error" then (.err c m (expectedCatcher p hs c), st, env)
@@ -342,6 +427,7 @@ def execStmt (p : Prog) (fuel : Nat) (self : Bool) (hs : List HEntry) (st : St) 
   | .rterr kind =>
     let (c, m) := rterrInfo kind
     (.err c m (expectedCatcher p hs c), st, env)
+  | .exit n => (.exit n, st, env)
   | .brk => (.brk, st, env)
   | .cont => (.cont, st, env)
   | .ret e =>
@@ -352,15 +438,17 @@ def execStmt (p : Prog) (fuel : Nat) (self : Bool) (hs : List HEntry) (st : St) 
       | (.ok v, st) => (.ret v, st, env)
       | (.err c m k, st) => (.err c m k, st, env)
       | (.stuck w, st) => (.stuck w, st, env)
+      | (.exit n, st) => (.exit n, st, env)
   | .if_ c t e =>
     match fuel with
     | 0 => (.stuck "fuel", st, env)
     | fuel + 1 =>
       match evalE p fuel self hs st env c with
-      | (.ok (.int n), st) => execScope p fuel self hs st env (if n != 0 then t else e)
-      | (.ok _, st) => (.stuck "if: not an int", st, env)
+      | (.ok (.bool b), st) => execScope p fuel self hs st env (if b then t else e)
+      | (.ok _, st) => (.stuck "if: not a bool", st, env)
       | (.err c m k, st) => (.err c m k, st, env)
       | (.stuck w, st) => (.stuck w, st, env)
+      | (.exit n, st) => (.exit n, st, env)
   | .while_ i n body =>
     match fuel with
     | 0 => (.stuck "fuel", st, env)
@@ -373,6 +461,33 @@ def execStmt (p : Prog) (fuel : Nat) (self : Bool) (hs : List HEntry) (st : St) 
     match fuel with
     | 0 => (.stuck "fuel", st, env)
     | fuel + 1 => loopEach p fuel self hs st env x vals body
+  | .pipe vals stages sink body =>
+    match fuel with
+    | 0 => (.stuck "fuel", st, env)
+    | fuel + 1 =>
+      match sink with
+      | .reduce _ init _ _ =>
+        match evalE p fuel self hs st env init with
+        | (.ok r, st) => pipeLoop p fuel self hs st env stages sink body [] r [] vals
+        | (.err c m k, st) => (.err c m k, st, env)
+        | (.stuck w, st) => (.stuck w, st, env)
+        | (.exit n, st) => (.exit n, st, env)
+      | .zip z => pipeLoop p fuel self hs st env stages sink body [] .nil z vals
+      | _ => pipeLoop p fuel self hs st env stages sink body [] .nil [] vals
+  | .sort vals k body =>
+    match fuel with
+    | 0 => (.stuck "fuel", st, env)
+    | fuel + 1 =>
+      -- every element of a list of >= 2 elements takes part in at least one comparison; the first
+      -- failure of the comparator is the failure of `sort` (no further calls are made)
+      if vals.contains k && decide (2 ≤ vals.length) then
+        match execScope p fuel self hs st env body with
+        | (.normal, st, env) => (.normal, pushOut st (sortedText vals), env)
+        | (.err c m k, st, env) => (.err c m k, st, env)
+        | (.stuck w, st, env) => (.stuck w, st, env)
+        | (.exit n, st, env) => (.exit n, st, env)
+        | (_, st, env) => (.stuck "exit statement in a sort comparator", st, env)
+      else (.normal, pushOut st (sortedText vals), env)
   | .try_ body catches =>
     match fuel with
     | 0 => (.stuck "fuel", st, env)
@@ -448,7 +563,103 @@ def loopEach (p : Prog) (fuel : Nat) (self : Bool) (hs : List HEntry) (st : St) 
       | (.ret _, st, env') => loopEach p fuel self hs st (leave env' env.length) x vals body
       | (.err c m k, st, env') => (.err c m k, st, leave env' env.length)
       | (.stuck w, st, env') => (.stuck w, st, leave env' env.length)
+      | (.exit n, st, env') => (.exit n, st, leave env' env.length)
       | (_, st, env') => (.stuck "break/continue left a callback", st, leave env' env.length)
+
+/-- one call of a callback `|binds| { body }`: a closure over `env` (it sees and may assign the
+enclosing function's variables); completing the body answers `nil`, `return e` answers `e`, an error
+leaves the call as that error. -/
+def callLam (p : Prog) (fuel : Nat) (self : Bool) (hs : List HEntry) (st : St) (env : Env)
+    (binds : List (String × Val)) (body : List Stmt) : ERes × St × Env :=
+  match fuel with
+  | 0 => (.stuck "fuel", st, env)
+  | fuel + 1 =>
+    match execScope p fuel self hs st (binds ++ env) body with
+    | (.normal, st, env') => (.ok .nil, st, leave env' env.length)
+    | (.ret v, st, env') => (.ok v, st, leave env' env.length)
+    | (.err c m k, st, env') => (.err c m k, st, leave env' env.length)
+    | (.stuck w, st, env') => (.stuck w, st, leave env' env.length)
+    | (.exit n, st, env') => (.exit n, st, leave env' env.length)
+    | (_, st, env') => (.stuck "break/continue left a callback", st, leave env' env.length)
+
+/-- pull ONE source element through the lazy stages, in order: `map` replaces the value by the
+callback's answer, `filter` drops the element when the answer is falsey. -/
+def runStages (p : Prog) (fuel : Nat) (self : Bool) (hs : List HEntry) (st : St) (env : Env)
+    (v : Val) : List (Bool × String × List Stmt) → SRes × St × Env
+  | [] => (.pass v, st, env)
+  | (isFilter, x, body) :: rest =>
+    match fuel with
+    | 0 => (.stuck "fuel", st, env)
+    | fuel + 1 =>
+      match callLam p fuel self hs st env [(x, v)] body with
+      | (.ok r, st, env) =>
+        if isFilter then
+          if falsey r then (.dropped, st, env) else runStages p fuel self hs st env v rest
+        else runStages p fuel self hs st env r rest
+      | (.err c m k, st, env) => (.err c m k, st, env)
+      | (.stuck w, st, env) => (.stuck w, st, env)
+      | (.exit n, st, env) => (.exit n, st, env)
+
+/-- the sink pulls the elements one at a time (the stages are lazy: the callbacks of element `i+1`
+run after the sink has consumed element `i`).  `acc` = texts of the values collected so far,
+`racc` = `reduce`'s accumulator, `z` = what is left of `zip`'s partner. -/
+def pipeLoop (p : Prog) (fuel : Nat) (self : Bool) (hs : List HEntry) (st : St) (env : Env)
+    (stages : List (Bool × String × List Stmt)) (sink : Sink) (body : List Stmt)
+    (acc : List String) (racc : Val) (z : List Int) : List Int → Outcome × St × Env
+  | [] => pipeDone sink st env acc racc
+  | v :: vals =>
+    match fuel with
+    | 0 => (.stuck "fuel", st, env)
+    | fuel + 1 =>
+      match runStages p fuel self hs st env (.int v) stages with
+      | (.dropped, st, env) => pipeLoop p fuel self hs st env stages sink body acc racc z vals
+      | (.err c m k, st, env) => (.err c m k, st, env)
+      | (.stuck w, st, env) => (.stuck w, st, env)
+      | (.exit n, st, env) => (.exit n, st, env)
+      | (.pass x, st, env) =>
+        match sink with
+        | .each y =>
+          match callLam p fuel self hs st env [(y, x)] body with
+          | (.ok _, st, env) => pipeLoop p fuel self hs st env stages sink body acc racc z vals
+          | (.err c m k, st, env) => (.err c m k, st, env)
+          | (.stuck w, st, env) => (.stuck w, st, env)
+          | (.exit n, st, env) => (.exit n, st, env)
+        | .forin y =>
+          match execScope p fuel self hs st ((y, x) :: env) body with
+          | (.normal, st, env') => pipeLoop p fuel self hs st (leave env' env.length) stages sink body acc racc z vals
+          | (.cont, st, env') => pipeLoop p fuel self hs st (leave env' env.length) stages sink body acc racc z vals
+          | (.brk, st, env') => (.normal, st, leave env' env.length)
+          | (o, st, env') => (o, st, leave env' env.length)
+        | .list => pipeLoop p fuel self hs st env stages sink body (acc ++ [showVal x]) racc z vals
+        | .collectList => pipeLoop p fuel self hs st env stages sink body (acc ++ [showVal x]) racc z vals
+        | .collectTuple => pipeLoop p fuel self hs st env stages sink body (acc ++ [showVal x]) racc z vals
+        | .reduce _ _ a y =>
+          match callLam p fuel self hs st env [(y, x), (a, racc)] body with
+          | (.ok r, st, env) => pipeLoop p fuel self hs st env stages sink body acc r z vals
+          | (.err c m k, st, env) => (.err c m k, st, env)
+          | (.stuck w, st, env) => (.stuck w, st, env)
+          | (.exit n, st, env) => (.exit n, st, env)
+        | .all y =>
+          match callLam p fuel self hs st env [(y, x)] body with
+          | (.ok r, st, env) =>
+            if falsey r then (.normal, pushOut st "false", env)
+            else pipeLoop p fuel self hs st env stages sink body acc racc z vals
+          | (.err c m k, st, env) => (.err c m k, st, env)
+          | (.stuck w, st, env) => (.stuck w, st, env)
+          | (.exit n, st, env) => (.exit n, st, env)
+        | .any y =>
+          match callLam p fuel self hs st env [(y, x)] body with
+          | (.ok r, st, env) =>
+            if falsey r then pipeLoop p fuel self hs st env stages sink body acc racc z vals
+            else (.normal, pushOut st "true", env)
+          | (.err c m k, st, env) => (.err c m k, st, env)
+          | (.stuck w, st, env) => (.stuck w, st, env)
+          | (.exit n, st, env) => (.exit n, st, env)
+        | .zip _ =>
+          -- `ZipIterator::next` pulls this pipeline first, then the partner; the first exhausted one ends it
+          match z with
+          | [] => pipeDone sink st env acc racc
+          | w :: z' => pipeLoop p fuel self hs st env stages sink body (acc ++ [s!"({showVal x}, {w})"]) racc z' vals
 end
 
 /-- run a program: (stdout lines, status, last line of stderr or "") -/
@@ -457,6 +668,7 @@ def runProg (p : Prog) (fuel : Nat) : Array String × String × String :=
   match execBlock p fuel false [] st [] p.main with
   | (.normal, st, _) => (st.out, if st.inconsistent then "SPEC-INCONSISTENT" else "Ok:0", "")
   | (.err c m _, st, _) => (st.out, if st.inconsistent then "SPEC-INCONSISTENT" else "RuntimeError:1", s!"{c}: {m}")
+  | (.exit n, st, _) => (st.out, if st.inconsistent then "SPEC-INCONSISTENT" else (if n == 0 then s!"Ok:0" else s!"RuntimeError:{n}"), "")
   | (.stuck w, st, _) => (st.out, s!"SPEC-STUCK:{w}", "")
   | (_, st, _) => (st.out, "SPEC-STUCK:exit statement at top level", "")
 
